@@ -607,3 +607,10 @@ V("C20", "twin: diagonal inertia entry written with products", "silent", (GEO, "
 V("C20", "coordinates of the inertia tensor taken as positions plus centre", "R20.6", (GEO, "pos_shifted = positions - centroid", "pos_shifted = positions + centroid"))
 V("C11", "layer translated by centre plus centre of mass", "R11.2", (SYM, "translation = cell_center - pbc_cm", "translation = cell_center + pbc_cm"))
 V("C14", "Bravais getter returns early when a space group was detected", "C14.getters", (SYM, "        if space_group is None:\n            return None\n\n        bravais_lattice", "        if space_group is not None:\n            return None\n\n        bravais_lattice"))
+
+# ------------------------------------------------------------------------------------------ argument kinds (mutation audit, operator `swapargs`)
+for _pid, _rid in (("C17", "R17.7"), ("C18", "R18.7")):
+    V(_pid, "structure and seed list exchanged in the call of cross_validate_region", _rid, (CLS, "self.cross_validate_region(system, seed_indices, distances)", "self.cross_validate_region(seed_indices, system, distances)"))
+for _pid, _rid in (("C04", "R04.1"), ("C18", "R18.7")):
+    V(_pid, "axis and structure exchanged in the call of get_thickness", _rid, (PFD, "matid.geometry.get_thickness(proto_cell, x) for x in range(3)", "matid.geometry.get_thickness(x, proto_cell) for x in range(3)"))
+V("C20", "cell and coordinates exchanged in a call of to_cartesian", "R20.1", (GEO, "pos_min_cart = matid.geometry.to_cartesian(basis, pos_min_rel)", "pos_min_cart = matid.geometry.to_cartesian(pos_min_rel, basis)"))
